@@ -135,8 +135,8 @@ Print Assumptions C15_move_stays_inside.
 (* (8) ~A ~S ~D ~B ~O ~X ~C take exactly one argument, which must be there (~C: a character), and only append
    text; ~P takes one, ~:P re-reads the previous one and leaves the cursor where it was, and writes nothing, y,
    ies or s; ~% ~~ ~& ~T take none. *)
-Theorem C15_aesthetic_consumes_one : forall b esc colon at_ ps c c' a, (0 <= c_apos c)%Z ->
-  dir_as b esc colon at_ ps c = Ok (c', a) ->
+Theorem C15_aesthetic_consumes_one : forall esc colon at_ ps c c' a, (0 <= c_apos c)%Z ->
+  dir_as esc colon at_ ps c = Ok (c', a) ->
   a = false /\ c_apos c' = (c_apos c + 1)%Z /\ arg_at c <> None /\ extends c c'.
 Proof. exact aesthetic_consumes_one. Qed.
 Print Assumptions C15_aesthetic_consumes_one.
